@@ -394,6 +394,18 @@ func (a *Analyzer) check(c func(sym ast.PredicateSym) error, clause ast.Clause) 
 			if err := c(p.Atom.Predicate); err != nil {
 				return err
 			}
+		case ast.TemporalLiteral:
+			// The atom under a temporal annotation or operator refers to a predicate like any other.
+			switch l := p.Literal.(type) {
+			case ast.Atom:
+				if err := c(l.Predicate); err != nil {
+					return err
+				}
+			case ast.NegAtom:
+				if err := c(l.Atom.Predicate); err != nil {
+					return err
+				}
+			}
 		default:
 			continue
 		}
